@@ -186,6 +186,7 @@ def cases_for(tier):
                     if text not in seen:
                         seen.add(text)
                         out.append(Case('C17|fresh|%s|%d|%s|%s' % (base, k, role, kind), text, {'generic_parameters': names[:k], 'role': role}, expect='any', run=False, depth=1))
+    out += item_zoo()
     depths = [1, 2, 3, 8, 32, 64, 128, 256] + ([512, 1024, 2048] if tier != 'quick' else [])
     for d in depths:
         for nk, mk in (('paren', lambda d: 'Debug' + '(' * d + ')' * d), ('p-chain', lambda d: 'Debug(' + 'name(' * d + 'x' + ')' * d + ')'), ('bound', lambda d: 'Debug(bound' + '(' * d + 'u8: Copy' + ')' * d + ')'),
@@ -201,6 +202,57 @@ def cases_for(tier):
         out.append(Case('C17|width|fields|%d' % d, text, {'fields': d}, expect='any', run=False, depth=1))
         text = '#[derive(Educe)]\n#[educe(PartialEq, PartialOrd)]\nenum Ty { %s }\n' % ' '.join('V%d = %d,' % (k, d - k) for k in range(d))
         out.append(Case('C17|width|variants|%d' % d, text, {'variants': d}, expect='any', run=False, depth=1))
+    return out
+
+
+ZOO_TYPES = ["&'a (dyn ::core::fmt::Display + Sync)", "&'a dyn ::core::fmt::Display", "&'a (u8)", "&'a ((u8))", '(u8)', '((u8,),)', "Option<&'a (dyn ::core::fmt::Debug + 'a)>",
+             "Box<dyn Fn(u8) -> u8 + Send + 'a>", '[u8; 2]', '[u8; { 1 + 1 }]', "&'a [u8]", "&'a mut [u8]", 'fn(u8) -> u8', "for<'x> fn(&'x u8) -> &'x u8", 'unsafe extern "C" fn(u8)',
+             '*const u8', '*mut Ty', '!', '()', '(u8, u16)', '<u8 as Tr>::Out', 'Vec<<u8 as Tr>::Out>', 'impl Tr', '_', 'tym!()', "&'a &'a u8", '::std::vec::Vec<u8>', 'crate::sup::V',
+             "::core::marker::PhantomData<fn(&'a u8) -> &'a T>", 'dyn Tr', '[u8]', 'str', 'Self', "&'a Self", 'Box<Self>', '[Self; 0]', "&'a (T)", '(T)', "&'a (dyn Tr<Out = u8> + Send)",
+             'u8', 'r#type', 'Vec<u8,>', "&'static (dyn ::core::fmt::Display + Sync)"]
+ZOO_SETS = ['Debug', 'Clone', 'Copy, Clone', 'PartialEq', 'PartialEq, Eq', 'PartialEq, PartialOrd', 'PartialEq, Eq, PartialOrd, Ord', 'Hash', 'Default', 'Default(new)']
+ZOO_PRE = "macro_rules! tym { () => { u8 }; }\npub trait Tr { type Out; }\nimpl Tr for u8 { type Out = u16; }\n#[allow(non_camel_case_types)] pub struct r#type;\n"
+DISCS = ['0', '-1', '1 + 1', '(5)', '-(1)', '1 << 3', "b'a' as isize", '0x7f', '1_000', '1u8', '0b11', '0o17', 'K', 'i128::MAX', '{ 3 }', 'u8::MAX as isize', '-0', '- 5', '!0', "'a' as isize",
+         'true as isize', '1isize', '9999999999999999999999999999999999999999999999', '-9999999999999999999999999999999999999999999999', '1.0', '"s"', '1e3', '0xFFFF_FFFF_FFFF_FFFF_FFFF_FFFF_FFFF_FFFF']
+BOUNDS = {'u8': (0, 255), 'i8': (-128, 127), 'u16': (0, 65535), 'i16': (-32768, 32767), 'u32': (0, 2**32 - 1), 'i32': (-2**31, 2**31 - 1), 'u64': (0, 2**64 - 1), 'i64': (-2**63, 2**63 - 1),
+          'usize': (0, 2**64 - 1), 'isize': (-2**63, 2**63 - 1), 'u128': (0, 2**128 - 1), 'i128': (-2**127, 2**127 - 1)}
+
+
+def item_zoo():
+    """the item itself as the adversarial part: exotic field types under every trait, and discriminants at and beyond the boundaries of every #[repr]"""
+    out = []
+
+    def add(key, text, spec):
+        out.append(Case(key, ZOO_PRE + text, spec, expect='any', run=False, depth=1))
+    for zi, z in enumerate(ZOO_TYPES):
+        zk = 'z%02d' % zi
+        for si, ts in enumerate(ZOO_SETS):
+            add('C17|zoo|%s|st|%s' % (zk, ts), "#[derive(Educe)]\n#[educe(%s)]\nstruct Ty<'a, T> { a: u8, z: %s, t: &'a T }\n" % (ts, z), {'field_type': z, 'traits': ts})
+            add('C17|zoo|%s|en|%s' % (zk, ts), "#[derive(Educe)]\n#[educe(%s)]\nenum Ty<'a, T> { %sA(u8, %s), B { z: %s, t: &'a T }, C }\n" % (
+                ts, '#[educe(Default)] ' if 'Default' in ts else '', z, z), {'field_type': z, 'traits': ts})
+        # Into: the conversion source is looked up by type among all fields; the exotic type as a bystander, as the source and as the target
+        add('C17|zoo|%s|st|Into-bystander' % zk, "#[derive(Educe)]\n#[educe(Into(u16), Into(u8))]\nstruct Ty<'a, T> { a: u16, b: u8, z: %s, t: &'a T }\n" % z, {'field_type': z})
+        add('C17|zoo|%s|en|Into-bystander' % zk, "#[derive(Educe)]\n#[educe(Into(u8))]\nenum Ty<'a, T> { A(u8, %s, &'a T), B { z: %s, x: u8 }, C(u8) }\n" % (z, z), {'field_type': z})
+        add('C17|zoo|%s|st|Into-target' % zk, "#[derive(Educe)]\n#[educe(Into(%s))]\nstruct Ty<'a, T> { z: %s, t: &'a T }\n" % (z, z), {'field_type': z})
+        add('C17|zoo|%s|st|Into-target1' % zk, "#[derive(Educe)]\n#[educe(Into(%s))]\nstruct Ty<'a>(%s, ::core::marker::PhantomData<&'a u8>);\n" % (z, z), {'field_type': z})
+        add('C17|zoo|%s|en|Into-target' % zk, "#[derive(Educe)]\n#[educe(Into(%s))]\nenum Ty<'a> { A(%s, &'a u8), B { z: %s } }\n" % (z, z, z), {'field_type': z})
+        add('C17|zoo|%s|st|Into-marked' % zk, "#[derive(Educe)]\n#[educe(Into(u8))]\nstruct Ty<'a, T> { #[educe(Into(u8))] z: %s, t: &'a T }\n" % z, {'field_type': z})
+        add('C17|zoo|%s|st|Deref' % zk, "#[derive(Educe)]\n#[educe(Deref, DerefMut)]\nstruct Ty<'a>(%s, #[educe(Debug)] ::core::marker::PhantomData<&'a u8>);\n".replace('#[educe(Debug)] ', '') % z, {'field_type': z})
+        add('C17|zoo|%s|st|Deref-marked' % zk, "#[derive(Educe)]\n#[educe(Deref, DerefMut)]\nstruct Ty<'a, T> { #[educe(Deref, DerefMut)] z: %s, t: &'a T }\n" % z, {'field_type': z})
+        add('C17|zoo|%s|en|Deref' % zk, "#[derive(Educe)]\n#[educe(Deref)]\nenum Ty<'a> { A(%s), B { #[educe(Deref)] z: %s, t: &'a u8 } }\n" % (z, z), {'field_type': z})
+        add('C17|zoo|%s|un|all' % zk, "#[derive(Educe)]\n#[educe(Debug(unsafe), PartialEq(unsafe), Hash(unsafe), Copy, Clone, Default)]\nunion Ty<'a, T> { #[educe(Default)] z: %s, t: &'a T }\n" % z, {'field_type': z})
+    for ts in ('PartialEq, PartialOrd', 'PartialEq, Eq, PartialOrd, Ord', 'PartialEq, Eq, Ord'):
+        tk = ts.replace('PartialEq, ', '').replace('Eq, ', '')
+        for repr, (lo, hi) in list(BOUNDS.items()) + [(None, BOUNDS['isize'])]:
+            ra = '#[repr(%s)]\n' % repr if repr else ''
+            for vk, v in (('max', hi), ('min', lo), ('max+1', hi + 1), ('min-1', lo - 1)):
+                for pk, body in (('last', 'A, B, C = %d' % v), ('first', 'A = %d, B, C' % v), ('middle', 'A, B = %d, C' % v), ('only', 'A = %d' % v), ('payload', 'A(u8), B { x: u8 } = %d, C' % v),
+                                 ('twice', 'A = %d, B = %d' % (v, v)), ('max-then-min', 'A = %d, B = %d, C' % (hi, lo))):
+                    add('C17|disc|%s|%s|%s|%s' % (tk, repr, vk, pk), '#[derive(Educe)]\n%s#[educe(%s)]\nenum Ty { %s }\n' % (ra, ts, body), {'repr': repr, 'discriminant': v, 'position': pk})
+        for di, d in enumerate(DISCS):
+            for repr in (None, 'u8', 'i128', 'u128'):
+                ra = '#[repr(%s)]\n' % repr if repr else ''
+                add('C17|disc-expr|%s|%s|%d' % (tk, repr, di), 'pub const K: isize = 4;\n#[derive(Educe)]\n%s#[educe(%s)]\nenum Ty { A = %s, B, C = 77 }\n' % (ra, ts, d), {'repr': repr, 'discriminant': d})
     return out
 
 
@@ -274,7 +326,7 @@ def check(v, tier):
     return v.finish('seeds: every documented attribute form at type / variant / field / union-field level on a matching shape; every single token-tree mutation of the argument list at every '
                     'nesting level: delete, duplicate, swap adjacent, replace by / insert each element of a 32-token alphabet (identifiers, unsafe, booleans, numbers incl. the isize boundaries, strings, char, = , :: * - '
                     'lifetime < > and empty groups in each delimiter), re-delimit or unwrap every group; attribute forms (#[educe], #[educe = lit], empty and malformed lists, raw identifiers, '
-                    'out-of-range numbers) at six host positions; nesting depths 1..256 (thorough ..2048) of ten recursive constructs, types with up to 256 fields / variants; all through '
+                    'out-of-range numbers) at six host positions; the item itself: 43 exotic field types (parenthesised and multi-bound trait objects, fn pointers, raw pointers, never, qualified paths, macro types, unsized and self-referential types, ...) under ten trait sets, as Into bystander / source / target and as Deref target, on structs, enums and unions; enum discriminants at the minimum, the maximum and one beyond for every #[repr] at five positions, and 28 literal / non-literal discriminant expressions; nesting depths 1..256 (thorough ..2048) of ten recursive constructs, types with up to 256 fields / variants; all through '
                     'the real macro inside rustc (one expansion round; a sentinel request at the end of every shard proves expansion reached it); thorough: pairs of mutations in-process, every '
                     'panic candidate confirmed through rustc.  Oracle: accepted or refused with a diagnostic; "proc-macro derive panicked", a compiler crash or exceeding the cap (bisected to '
                     'the case) is a violation; non-trivial = inputs refused by an educe diagnostic',
